@@ -351,6 +351,8 @@ def _server_facts_probed(tree):
         if isinstance(r, BaseException):
             raise r
         return r
+    ctx = tree_module(tree, "Pyro5.callcontext").current_context
+    saved_ctx = ctx.to_global()
     d = ProbeDaemon(host="127.0.0.1", port=0)
     real_stub = proto.recv_stub
     results = {}
@@ -391,6 +393,10 @@ def _server_facts_probed(tree):
             d.close()
         except Exception:
             pass
+        try:
+            ctx.from_global(saved_ctx)      # the probed handshakes wrote correlation id / response annotations
+        except Exception:
+            pass
     firsts = {tuple(r["types"] or ()) for r in results.values()}
     need(len(firsts) == 1 and None not in [r["types"] for r in results.values()], "_handshake does not always pass the same accepted types to recv_stub")
     need(later is not None, "handleRequest accepts every message type")
@@ -402,6 +408,188 @@ def _server_facts_probed(tree):
     deny = (not results["denied"]["ret"]) and len(results["denied"]["sent"]) == 1 and results["denied"]["sent"][0][0] == fail_type
     return {"first": list(firsts.pop()), "later": later, "ok_only": ok_only, "marshal_id": int(results["wrongtype"]["sent"][0][1]),
             "deny_refuses": deny}
+
+
+def _transport_facts_ast(thr, mux, sf):
+    # thread server
+    job_call = find_func(thr, "__call__", "ClientConnectionJob")
+    n_hc = len(calls_in(job_call, "handleConnection"))
+    need(n_hc == 1, "ClientConnectionJob.__call__: handleConnection called %d times" % n_hc)
+    thread_loop_guarded = calls_only_under(job_call, "handleRequest", guard_by_call("handleConnection"), "ClientConnectionJob.__call__")
+    hc = find_func(thr, "handleConnection", "ClientConnectionJob")
+    thread_hc_guarded = truthy_return_only_under(hc, "_handshake", lambda v: isinstance(v, ast.Constant) and v.value is True)
+    # the refusal of a connection when the pool is exhausted: events() -> job.denyConnection(<literal reason>), and
+    # denyConnection hands the reason to _handshake(..., denied_reason=reason) and never reaches handleRequest
+    tev = find_func(thr, "events", "SocketServer_Threadpool")
+    dcalls = calls_in(tev, "denyConnection")
+    need(len(dcalls) == 1 and len(dcalls[0].args) == 1, "SocketServer_Threadpool.events: denyConnection(<reason>) not found exactly once")
+    rnode = dcalls[0].args[0]
+    if isinstance(rnode, ast.Name):                 # the literal moved behind a module-level name
+        rnode = module_assign(thr, rnode.id)
+    need(isinstance(rnode, ast.Constant) and isinstance(rnode.value, str) and rnode.value.strip(),
+         "SocketServer_Threadpool.events: the reason given to denyConnection is not a string literal")
+    deny_reason = rnode.value
+    deny = find_func(thr, "denyConnection", "ClientConnectionJob")
+    need(not calls_in(deny, "handleRequest") and not calls_in(deny, "handleConnection"),
+         "denyConnection reaches the request loop")
+    dh = calls_in(deny, "_handshake")
+    need(len(dh) == 1 and any(k.arg == "denied_reason" for k in dh[0].keywords),
+         "denyConnection does not call _handshake(..., denied_reason=...) exactly once")
+    need(len(calls_in(deny, "close")) >= 1, "denyConnection does not close the socket")
+    # multiplex server
+    ev = find_func(mux, "events", "SocketServer_Multiplex")
+    assigns = [n for n in ast.walk(ev) if isinstance(n, ast.Assign) and is_call_to(n.value, "_handleConnection")]
+    need(len(assigns) == 1 and len(assigns[0].targets) == 1 and isinstance(assigns[0].targets[0], ast.Name)
+         and len(calls_in(ev, "_handleConnection")) == 1, "events: `conn = self._handleConnection(...)` not found exactly once")
+    connvar = assigns[0].targets[0].id
+    mux_reg_guarded = calls_only_under(ev, "register", guard_by_name(connvar), "SocketServer_Multiplex.events")
+    for c in calls_in(ev, "register"):
+        need(c.args and isinstance(c.args[0], ast.Name) and c.args[0].id == connvar, "events: register() of something that is not the new connection")
+    mhc = find_func(mux, "_handleConnection", "SocketServer_Multiplex")
+    hcalls = calls_in(mhc, "_handshake")
+    need(len(hcalls) == 1 and len(hcalls[0].args) >= 1 and isinstance(hcalls[0].args[0], ast.Name), "_handleConnection: _handshake(conn) call not found")
+    hconn = hcalls[0].args[0].id
+    mux_hc_guarded = truthy_return_only_under(mhc, "_handshake", lambda v: isinstance(v, ast.Name) and v.id == hconn)
+    # client sockets are only ever handled by the events loop when they come from the selector: nothing else to check here
+
+    return {"thread_gate": thread_loop_guarded and thread_hc_guarded, "mux_gate": mux_reg_guarded and mux_hc_guarded,
+            "deny_reason": deny_reason}
+
+
+class _Scripted(object):
+    """a daemon / socket / selector / pool stand-in that records what is done with it"""
+    def __init__(self, handshake_result):
+        self.handshake_result = handshake_result
+        self.handshakes, self.requests, self.closed, self.registered = [], 0, 0, []
+
+    # daemon
+    def _handshake(self, conn, denied_reason=None):
+        self.handshakes.append(denied_reason)
+        if isinstance(self.handshake_result, BaseException):
+            raise self.handshake_result
+        return self.handshake_result
+
+    def handleRequest(self, conn):
+        from Pyro5 import errors
+        self.requests += 1
+        raise errors.ConnectionClosedError("probe: no more requests")
+
+    def _clientDisconnect(self, conn):
+        pass
+
+    def _housekeeping(self):
+        pass
+
+
+def _transport_facts_probed(tree):
+    """Measured on the tree's own ClientConnectionJob / SocketServer_Multiplex / SocketServer_Threadpool with a scripted daemon:
+    is Daemon.handleRequest reached (thread server) / is the connection registered with the selector (multiplex server) when
+    _handshake returns False, raises, or returns True; what reason does the thread server give a connection when the pool
+    has no free worker, and is that connection kept away from handleRequest."""
+    from tools.gen.gen import tree_module
+    thr = tree_module(tree, "Pyro5.svr_threads")
+    mux = tree_module(tree, "Pyro5.svr_multiplex")
+    cfg = tree_module(tree, "Pyro5").config
+    saved = {k: getattr(cfg, k) for k in ("COMMTIMEOUT", "POLLTIMEOUT")}
+    cfg.COMMTIMEOUT, cfg.POLLTIMEOUT = 0.0, 0.01
+
+    class Sock(object):
+        def __init__(self, log):
+            self.log = log
+
+        def shutdown(self, how):
+            pass
+
+        def close(self):
+            self.log.closed += 1
+
+        def settimeout(self, t):
+            pass
+
+        def getpeername(self):
+            return ("127.0.0.1", 1)
+
+        def fileno(self):
+            return 0
+
+    class Listen(object):
+        def __init__(self, log):
+            self.log = log
+
+        def accept(self):
+            return Sock(self.log), ("127.0.0.1", 1)
+
+    class Selector(object):
+        def __init__(self, log):
+            self.log = log
+
+        def register(self, fileobj, events, data=None):
+            self.log.registered.append(fileobj)
+
+        def unregister(self, fileobj):
+            pass
+
+        def select(self, timeout=None):
+            return [("probe", 1)]
+
+        def get_map(self):
+            return {}
+
+    class FullPool(object):
+        def process(self, job):
+            raise thr.NoFreeWorkersError("probe: pool full")
+    try:
+        outcomes = {}
+        for name, result in (("refused", False), ("raised", ValueError("probe")), ("accepted", True)):
+            d = _Scripted(result)
+            job = thr.ClientConnectionJob(Sock(d), ("127.0.0.1", 1), d)
+            try:
+                job()
+            except Exception:
+                pass
+            need(len(d.handshakes) == 1, "probe: ClientConnectionJob called _handshake %d times" % len(d.handshakes))
+            outcomes["thread:" + name] = d.requests
+            d = _Scripted(result)
+            srv = mux.SocketServer_Multiplex()
+            try:
+                srv.selector.close()
+            except Exception:
+                pass
+            srv.selector, srv.daemon, srv.sock = Selector(d), d, Listen(d)
+            try:
+                srv.events([srv.sock])
+            except Exception:
+                pass
+            srv.sock = None
+            need(len(d.handshakes) == 1, "probe: SocketServer_Multiplex.events called _handshake %d times" % len(d.handshakes))
+            outcomes["mux:" + name] = len(d.registered)
+        need(outcomes["thread:accepted"] >= 1, "probe: the thread server does not serve an accepted connection")
+        need(outcomes["mux:accepted"] == 1, "probe: the multiplex server does not register an accepted connection")
+        # pool exhausted
+        d = _Scripted(False)
+        srv = thr.SocketServer_Threadpool()
+        try:
+            srv._selector.close()
+        except Exception:
+            pass
+        srv._selector, srv.daemon, srv.sock, srv.pool = Selector(d), d, Listen(d), FullPool()
+        try:
+            srv.events([srv.sock])
+        finally:
+            srv.sock, srv.pool, srv.housekeeper = None, None, None
+        need(len(d.handshakes) == 1 and isinstance(d.handshakes[0], str) and d.handshakes[0].strip(),
+             "probe: a full pool does not lead to exactly one _handshake(denied_reason=<text>)")
+        need(d.requests == 0, "probe: a connection refused by the full pool reaches handleRequest")
+        return {"thread_gate": outcomes["thread:refused"] == 0 and outcomes["thread:raised"] == 0,
+                "mux_gate": outcomes["mux:refused"] == 0 and outcomes["mux:raised"] == 0,
+                "deny_reason": d.handshakes[0]}
+    except GenError:
+        raise
+    except Exception as x:
+        raise GenError("transport probe failed: %s: %s" % (type(x).__name__, x))
+    finally:
+        for k, v in saved.items():
+            setattr(cfg, k, v)
 
 
 def analyse_client(client_mod):
@@ -461,45 +649,17 @@ def gen_handshake(tree):
         sf = _server_facts_probed(tree)
         mode = "probed (ast reader: %s)" % x
     first_vals, later_vals, ok_only, marshal_id = sf["first"], sf["later"], sf["ok_only"], sf["marshal_id"]
-    # thread server
-    job_call = find_func(thr, "__call__", "ClientConnectionJob")
-    n_hc = len(calls_in(job_call, "handleConnection"))
-    need(n_hc == 1, "ClientConnectionJob.__call__: handleConnection called %d times" % n_hc)
-    thread_loop_guarded = calls_only_under(job_call, "handleRequest", guard_by_call("handleConnection"), "ClientConnectionJob.__call__")
-    hc = find_func(thr, "handleConnection", "ClientConnectionJob")
-    thread_hc_guarded = truthy_return_only_under(hc, "_handshake", lambda v: isinstance(v, ast.Constant) and v.value is True)
-    # the refusal of a connection when the pool is exhausted: events() -> job.denyConnection(<literal reason>), and
-    # denyConnection hands the reason to _handshake(..., denied_reason=reason) and never reaches handleRequest
-    tev = find_func(thr, "events", "SocketServer_Threadpool")
-    dcalls = calls_in(tev, "denyConnection")
-    need(len(dcalls) == 1 and len(dcalls[0].args) == 1 and isinstance(dcalls[0].args[0], ast.Constant)
-         and isinstance(dcalls[0].args[0].value, str) and dcalls[0].args[0].value.strip(),
-         "SocketServer_Threadpool.events: denyConnection(<string literal>) not found exactly once")
-    deny_reason = dcalls[0].args[0].value
-    deny = find_func(thr, "denyConnection", "ClientConnectionJob")
-    need(not calls_in(deny, "handleRequest") and not calls_in(deny, "handleConnection"),
-         "denyConnection reaches the request loop")
-    dh = calls_in(deny, "_handshake")
-    need(len(dh) == 1 and any(k.arg == "denied_reason" for k in dh[0].keywords),
-         "denyConnection does not call _handshake(..., denied_reason=...) exactly once")
-    need(len(calls_in(deny, "close")) >= 1, "denyConnection does not close the socket")
+    try:
+        tf = _transport_facts_ast(thr, mux, sf)
+        tmode = "ast"
+    except GenError as x:
+        # reshaped transport servers (request loop / accept path split into helpers, ...): measure the gates on the tree's own
+        # classes with a scripted daemon instead of reading their syntax
+        tf = _transport_facts_probed(tree)
+        tmode = "probed (ast reader: %s)" % x
     need(sf["deny_refuses"], "_handshake does not refuse when denied_reason is given")
-    # multiplex server
-    ev = find_func(mux, "events", "SocketServer_Multiplex")
-    assigns = [n for n in ast.walk(ev) if isinstance(n, ast.Assign) and is_call_to(n.value, "_handleConnection")]
-    need(len(assigns) == 1 and len(assigns[0].targets) == 1 and isinstance(assigns[0].targets[0], ast.Name)
-         and len(calls_in(ev, "_handleConnection")) == 1, "events: `conn = self._handleConnection(...)` not found exactly once")
-    connvar = assigns[0].targets[0].id
-    mux_reg_guarded = calls_only_under(ev, "register", guard_by_name(connvar), "SocketServer_Multiplex.events")
-    for c in calls_in(ev, "register"):
-        need(c.args and isinstance(c.args[0], ast.Name) and c.args[0].id == connvar, "events: register() of something that is not the new connection")
-    mhc = find_func(mux, "_handleConnection", "SocketServer_Multiplex")
-    hcalls = calls_in(mhc, "_handshake")
-    need(len(hcalls) == 1 and len(hcalls[0].args) >= 1 and isinstance(hcalls[0].args[0], ast.Name), "_handleConnection: _handshake(conn) call not found")
-    hconn = hcalls[0].args[0].id
-    mux_hc_guarded = truthy_return_only_under(mhc, "_handshake", lambda v: isinstance(v, ast.Name) and v.id == hconn)
-    # client sockets are only ever handled by the events loop when they come from the selector: nothing else to check here
-
+    thread_gate, mux_gate, deny_reason = tf["thread_gate"], tf["mux_gate"], tf["deny_reason"]
+    mode = "server.py: %s; transport servers: %s" % (mode, tmode)
     vals = {n: const(n) for n in ["MSG_CONNECT", "MSG_INVOKE", "MSG_PING"]}
     out = HEADER % "Pyro5/server.py, svr_threads.py, svr_multiplex.py, protocol.py, serializers.py"
     out += "(* message types Daemon._handshake hands to recv_stub as the accepted ones *)\n"
@@ -510,20 +670,17 @@ def gen_handshake(tree):
         cN(vals["MSG_CONNECT"]), cN(vals["MSG_INVOKE"]), cN(vals["MSG_PING"]))
     out += "(* _handshake returns a truthy value only when the answer it sent was CONNECTOK *)\n"
     out += "Definition hs_ok_only : bool := %s.\n" % cbool(ok_only)
-    out += "(* ClientConnectionJob.__call__: every handleRequest call under `if self.handleConnection()`: %s;\n" % thread_loop_guarded
-    out += "   handleConnection returns True only under `if self.daemon._handshake(...)`: %s *)\n" % thread_hc_guarded
-    out += "Definition thread_gate : bool := %s.\n" % cbool(thread_loop_guarded and thread_hc_guarded)
-    out += "(* SocketServer_Multiplex.events: selector.register(conn) only under `if conn`: %s;\n" % mux_reg_guarded
-    out += "   _handleConnection returns conn only under `if self.daemon._handshake(conn)`: %s *)\n" % mux_hc_guarded
-    out += "Definition mux_gate : bool := %s.\n" % cbool(mux_reg_guarded and mux_hc_guarded)
+    out += "(* thread server: Daemon.handleRequest is reached only after handleConnection / _handshake returned a truthy value *)\n"
+    out += "Definition thread_gate : bool := %s.\n" % cbool(thread_gate)
+    out += "(* multiplex server: the connection is registered with the selector only after _handshake returned a truthy value *)\n"
+    out += "Definition mux_gate : bool := %s.\n" % cbool(mux_gate)
     out += "Definition marshal_id : N := %s.\n" % cN(marshal_id)
     out += "(* pool exhausted: events() -> denyConnection(%r) -> _handshake(denied_reason=...) raised before the validator; socket closed; no request loop *)\n" % deny_reason.replace("*)", "* )")
     out += "Definition deny_checked : bool := true.\n"
     out += "(* Proxy.__pyroCreateConnection decodes the handshake answer with serializers_by_id[<answer>.serializer_id] *)\n"
     out += "Definition client_uses_reply_ser : bool := %s.\n" % cbool(client_reply_ser)
     info = {"first_types": first_vals, "later_types": later_vals, "mode": mode, "ok_only": ok_only,
-            "thread_gate": thread_loop_guarded and thread_hc_guarded, "mux_gate": mux_reg_guarded and mux_hc_guarded,
+            "thread_gate": thread_gate, "mux_gate": mux_gate,
             "marshal_id": marshal_id, "deny_reason": deny_reason, "client_uses_reply_ser": client_reply_ser, "t_connect": vals["MSG_CONNECT"], "t_invoke": vals["MSG_INVOKE"], "t_ping": vals["MSG_PING"],
-            "ast_sha": {"handleConnection": ast_sha(hc), "__call__": ast_sha(job_call),
-                        "events": ast_sha(ev), "_handleConnection": ast_sha(mhc)}}
+            }
     return out, info
